@@ -65,7 +65,7 @@ def pre_checks(tier):
 def budget(tier):
     if tier == "quick":
         return {"runs": 160000, "chunk": 500, "wall_cap": 400.0, "det_sample": 8}
-    return {"runs": 1500000, "chunk": 500, "wall_cap": 3300.0, "det_sample": 40}
+    return {"runs": 9000000, "chunk": 1000, "wall_cap": 3300.0, "det_sample": 40}
 
 
 # ---------------------------------------------------------------------------- generation
